@@ -5,6 +5,7 @@ CONSTANTS
   MaxChild = 1
   PreStates <- QPre
   GuardFinal = TRUE
+  FileRoots = FALSE
 SPECIFICATION Spec
 CHECK_DEADLOCK FALSE
 INVARIANT Contained
